@@ -29,7 +29,7 @@ import random
 import time
 import traceback
 
-from ..report import ROOT, Run
+from ..report import OUT as ROOT, Run
 from ..rtc import modtree as mt
 
 FULL = dict(max_mods=4, max_pars=4, max_children=2)
